@@ -26,6 +26,8 @@ Next == /\ l <= Len(Trace) /\ l' = l + 1
            \* ones again at the end: ListKeys returns exactly the present keys that match - `wrong` counts the answers that differ
            \/ Ev.op = "ManyPatterns" /\ Ev.wrong = 0
            \/ Ev.op = "Fresh" /\ Ev.dups = 0 /\ Ev.errs = 0
+           \* OverDead (C02): a dead record read and overwritten at the same instant: no successful write was lost
+           \/ Ev.op = "OverDead" /\ Ev.lost = 0 /\ Ev.errs = 0
 Spec == Init /\ [][Next]_l
 Accepted == AcceptByDiameter
 =============================================================================
